@@ -31,7 +31,8 @@ META = {
              "rotations by every k in 0..N-1 and mirrors; the 5 hard cases with rotations/mirrors; Jacobian points "
              "lambda in [-6,6]^4 and initial_value() of generated moments. Non-trivial = R > 0.05 and (for "
              "equivariance) k != 0 or mirror; distinct = sha1 of the case."
-             " Fidelity cases use the grid labelled [0,360), listed from another bin on (wrapping inside the array), in [-180,180) or unwrapped from 270; batch neighbours are the same sea turned or the repository's hard cases, every resolved cell is asserted for MEM, Newton and scipy."),
+             " Fidelity cases use the grid labelled [0,360), listed from another bin on (wrapping inside the array), in [-180,180) or unwrapped from 270; batch neighbours are the same sea turned or the repository's hard cases, every resolved cell is asserted for MEM, Newton and scipy."
+             " A third of the resolved lobes are 1.5-2.6 bins wide (the narrow end of the resolved domain)."),
     "assumptions": [
         "moments recomputed from the returned distribution with the midpoint rule on the same grid",
         "MEM2 newton/scipy: four-moment norm <= 0.0101 (solver atol 0.01 + recomputation slack); newton vs scipy moments <= 0.02",
